@@ -432,6 +432,41 @@ func (p *pipeline) processPackage(pkg *gombokgen.Package) string {
 		res.mu.Unlock()
 		removeStructs(pkg, map[string]bool{st.Name: true})
 	}
+	// ---- regenerate IN PLACE (seed C07-10 of round 5): `go generate` is run again and again in a directory that already holds
+	// the previous output.  gombok must not take its own earlier output for user-written code: a second run over the accepted
+	// package, with the generated files of the first run still there, must succeed and reproduce them byte for byte.
+	{
+		gen := []string{filepath.Join(dir, pkg.Name+"_value_generated.go"), filepath.Join(dir, pkg.Name+"_derive_generated.go")}
+		read := func() string {
+			var sb strings.Builder
+			for _, f := range gen {
+				b, err := os.ReadFile(f)
+				if err != nil {
+					sb.WriteString("<absent>")
+				}
+				sb.Write(b)
+				sb.WriteString("\x00")
+			}
+			return sb.String()
+		}
+		before := read()
+		rc2, out2 := run(dir, []string{"GOPACKAGE=" + pkg.Name}, 10*time.Minute, p.gombok)
+		after := read()
+		res.count("regenerate-in-place", 1)
+		if rc2 != 0 || before != after {
+			what := "a second gombok run over its own output changed the generated files"
+			if rc2 != 0 {
+				what = "a second gombok run in the same directory failed: " + tail(out2, 300)
+			}
+			decls := []string{}
+			for _, st := range pkg.Structs {
+				decls = append(decls, st.DeclWithDerives())
+			}
+			res.fail("C07.regenerate-in-place", "package "+pkg.Name+": "+strings.Join(decls, " ; "), what)
+			// restore the first run's output so that the rest of the pipeline judges the declarations themselves
+			p.runGombok(pkg.Name)
+		}
+	}
 	// ---- compile with the generated driver
 	mainDir := filepath.Join(dir, "cmd")
 	bin := filepath.Join(p.tmp, "bin_"+pkg.Name)
